@@ -26,9 +26,15 @@ class Dest:
     line: int
 
 
-def argparse_dests(rel=ARGP, fn="get_parser") -> dict[str, Dest]:
+def argparse_all(rel=ARGP, fn="get_parser") -> list[Dest]:
+    """Every add_argument call (a dest may be defined on several branches, e.g. --nac / --nonac)."""
+    return argparse_dests(rel, fn, _all=True)
+
+
+def argparse_dests(rel=ARGP, fn="get_parser", _all=False):
     f = core.find_def(rel, fn)
     out = {}
+    every = []
     for c in ast.walk(f):
         if isinstance(c, ast.Call) and isinstance(c.func, ast.Attribute) and c.func.attr == "add_argument":
             kw = {k.arg: k.value for k in c.keywords if k.arg}
@@ -42,7 +48,7 @@ def argparse_dests(rel=ARGP, fn="get_parser") -> dict[str, Dest]:
                 name = dest.value if isinstance(dest, ast.Constant) else None
             if name is None:
                 continue
-            out[name] = Dest(
+            out[name] = every_one = Dest(
                 name,
                 flags,
                 kw["action"].value if "action" in kw and isinstance(kw["action"], ast.Constant) else None,
@@ -51,7 +57,8 @@ def argparse_dests(rel=ARGP, fn="get_parser") -> dict[str, Dest]:
                 core.src(kw["nargs"]) if "nargs" in kw else None,
                 c.lineno,
             )
-    return out
+            every.append(every_one)
+    return every if _all else out
 
 
 @dataclass
